@@ -430,3 +430,30 @@ def vtlp_rules(ck, P, rule="R-TABLE-INDEX"):
                     src = ir.strip(en[0]["recv"])
                     ok = ok and src.get("k") == "mcall" and src.get("name") == "iter" and ir.place_str(src["recv"]) == "list"
         ck.check(ok, rule, b["q"] + "|enumerate", "new() maps each list element to its own position (list.iter().enumerate())", "new() does not build map = {list[i] -> i}", ir.loc(b))
+
+
+def total_order_rules(ck, P, rule="R-TOTAL-ORDER"):
+    """Property tables are rebuilt with slice::sort_unstable_by over the property values; since Rust 1.81 the sort panics
+    when the comparator is not a total order.  Every workspace `Ord::cmp` reachable from a sort must therefore be total:
+    comparing floats through partial_cmp(..).unwrap_or(Equal) makes NaN equal to everything (not transitive)."""
+    sorts = []
+    for b in P.bodies:
+        if not P.is_workspace(b["q"]) or "::tests::" in b["q"] or b.get("crate") != "versatiles_geometry":
+            continue
+        for n in ir.walk_nodes(b["body"]):
+            if n.get("k") == "mcall" and n.get("name", "").startswith(("sort", "binary_search", "max_by", "min_by")) and ir.contains(n, lambda y: (y.get("q") or "").endswith("cmp::Ord::cmp")):
+                sorts.append((b, n))
+    ck.anchor(rule, "sorts that use Ord::cmp of workspace types (versatiles_geometry)", sorts, 1)
+    ords = [b for b in P.bodies if b.get("trait_item", "").endswith("cmp::Ord::cmp") and P.is_workspace(b["q"]) and b.get("crate") == "versatiles_geometry"]
+    if not ck.anchor(rule, "impl Ord in versatiles_geometry", ords, 1):
+        return
+    for b in ords:
+        bad = []
+        for n in ir.walk_nodes(b["body"]):
+            if n.get("k") == "mcall" and n.get("name") == "partial_cmp":
+                t = (n["recv"].get("t") or "") + (n["recv"].get("ta") or "")
+                if "f32" in t or "f64" in t:
+                    bad.append(ir.loc(n))
+        ck.check(not bad, rule, b["q"], "Ord::cmp compares floats with a total order (total_cmp)",
+                 "Ord::cmp compares floats with partial_cmp(..).unwrap_or(..) at %s: NaN compares Equal to every float, the order is not transitive and "
+                 "sort_unstable_by (PropertyManager::from_iter) panics with 'does not correctly implement a total order' for layers holding NaN values" % bad, ir.loc(b))
